@@ -60,6 +60,11 @@ GInit ==
   /\ \A n \in Around(DenseBlockThreshold) : \A m \in {x \in Merges : x.keep = 1000 /\ x.order # "none" /\ x.perm \in {"identity", "random"}} :
        PrintT(<<"CASE", ToJson([what |-> "thrmerge", counts |-> <<2000, n - 2000>>, sizes |-> <<20000, 20000>>, merge |-> m,
                                  variants |-> <<OptionalBlockVariant(2000), OptionalBlockVariant(n - 2000), OptionalBlockVariant(n)>>])>>)
+  \* a block in which every row (or every row but one) has a value, as block 0 or block 1 of a table of more
+  \* than two blocks whose other rows have gaps; read directly and after a stacked merge with a small table
+  /\ \A n \in {FullBlockRows - 1, FullBlockRows} : \A blk \in {0, 1} :
+       PrintT(<<"CASE", ToJson([what |-> "fullblock", count |-> n, block |-> blk, nrows |-> 2 * OptionalBlockRows + 500,
+                                 merge_with |-> 100, merge |-> [order |-> "stack", keep |-> 1000, perm |-> "identity"]])>>)
 GNext == done' = TRUE /\ UNCHANGED cvars
 GSpec == GInit /\ [][GNext]_<<done, cvars>>
 =============================================================================
